@@ -229,8 +229,8 @@ func CheckRequestLocations(d *m.Design, s *m.Service, meth *m.Method, sent value
 		v, a, set := get(p.Attr)
 		texts, present := q[p.WireName()]
 		if !set {
-			if present {
-				return fmt.Sprintf("query parameter %q present although attribute %q is unset", p.WireName(), p.Attr)
+			if present && !carriesDefault(d, a, texts, false) {
+				return fmt.Sprintf("query parameter %q = %q present although attribute %q is unset", p.WireName(), texts, p.Attr)
 			}
 			continue
 		}
@@ -252,8 +252,8 @@ func CheckRequestLocations(d *m.Design, s *m.Service, meth *m.Method, sent value
 		v, a, set := get(p.Attr)
 		texts, present := hdr[http.CanonicalHeaderKey(p.WireName())]
 		if !set {
-			if present {
-				return fmt.Sprintf("header %q present although attribute %q is unset", p.WireName(), p.Attr)
+			if present && !carriesDefault(d, a, texts, true) {
+				return fmt.Sprintf("header %q = %q present although attribute %q is unset", p.WireName(), texts, p.Attr)
 			}
 			continue
 		}
@@ -268,7 +268,7 @@ func CheckRequestLocations(d *m.Design, s *m.Service, meth *m.Method, sent value
 		v, a, set := get(p.Attr)
 		txt, present := cookies[p.WireName()]
 		if !set {
-			if present {
+			if present && !carriesDefault(d, a, []string{txt}, false) {
 				return fmt.Sprintf("cookie %q present although attribute %q is unset", p.WireName(), p.Attr)
 			}
 			continue
@@ -301,14 +301,20 @@ func CheckRequestLocations(d *m.Design, s *m.Service, meth *m.Method, sent value
 	}
 	var setBody []string
 	optionalEmpty := map[string]bool{}
+	unsetDefault := map[string]*m.Attr{}
 	for _, n := range bodyAttrs {
-		if v, _, set := get(n); set {
+		v, a, set := get(n)
+		if set {
 			if emptyColl(v) {
 				// an empty collection may be sent or omitted (nil and empty are the same Go value)
 				optionalEmpty[n] = true
 				continue
 			}
 			setBody = append(setBody, n)
+		} else if a != nil && a.Default != nil {
+			// an unset attribute with a declared default may be omitted or
+			// sent carrying that default (the client may apply it)
+			unsetDefault[n] = a
 		}
 	}
 	if len(bodyAttrs) == 0 {
@@ -326,6 +332,12 @@ func CheckRequestLocations(d *m.Design, s *m.Service, meth *m.Method, sent value
 		if string(raw) == "null" || optionalEmpty[k] {
 			continue
 		}
+		if a := unsetDefault[k]; a != nil {
+			if msg := jsonEquals(d, a, raw, *a.Default); msg != "" {
+				return fmt.Sprintf("body attribute %q is unset and has a default, the body carries another value: %s", k, msg)
+			}
+			continue
+		}
 		keys = append(keys, k)
 	}
 	sort.Strings(keys)
@@ -340,6 +352,15 @@ func CheckRequestLocations(d *m.Design, s *m.Service, meth *m.Method, sent value
 		}
 	}
 	return ""
+}
+
+// carriesDefault reports whether the wire texts of an unset attribute are
+// exactly its declared default (the sender may apply the default itself).
+func carriesDefault(d *m.Design, a *m.Attr, texts []string, header bool) bool {
+	if a == nil || a.Default == nil {
+		return false
+	}
+	return wireMatches(d, a, texts, Canonicalize(d, a, *a.Default), header) == ""
 }
 
 func trunc(b []byte) string {
